@@ -75,7 +75,7 @@ class Check(DiffCheck):
         libdir = photon_lib()
         rc, out = sh('nm -D %s/libphoton.so | grep -c photon_verif_clock' % libdir)
         self.hooks = (rc == 0 and out.strip() not in ('', '0'))
-        exe, log = cxx_build(self.id, ['harness/C11/harness.cpp'], libphoton=True)
+        exe, log = cxx_build(self.id, ['harness/C11/harness.cpp'], extra='-Wl,-z,now', libphoton=True)
         if not exe: raise RuntimeError(log)
         return exe
 
